@@ -173,6 +173,59 @@ fn check_tonumber(case: &Value, obs: &mut Obs) -> Result<(), String> {
     Ok(())
 }
 
+/// Radix literals on a rounding boundary; the expected double is known by construction (gen::radix_rounding_case).
+fn check_radix_rounding(case: &Value, obs: &mut Obs) -> Result<(), String> {
+    let s = case["s"].as_str().unwrap_or("");
+    let want = corpus::bits(case["bits"].as_str().unwrap_or(""));
+    // the oracle's own model must agree with the construction, else the oracle is broken
+    let m = crate::model::coerce::string_to_number(s);
+    if m != want {
+        return Err(format!("oracle_broken: the model converts {} to {:e}, the construction says {:e}", s, m, want));
+    }
+    obs.nt(case["class"].as_str().unwrap_or("rounding"));
+    let data = json!({"s": s});
+    let vs = json!({"var": "s"});
+    let lit = json!(s);
+    for rule in [json!({"-": [vs.clone(), 0]}), json!({"-": [lit.clone(), 0]}), json!({"/": [vs.clone(), 1]}), json!({"max": [vs.clone()]}), json!({"min": [lit.clone()]}), json!({"-": [0, {"-": [vs.clone()]}]})] {
+        match run(&rule, &data, obs)? {
+            Some(g) => {
+                if g.as_f64() != Some(want) {
+                    return Err(format!("{} with s = {} should be exactly {:e} (the literal's value rounded to nearest, ties to even), got {}", rule, s, want, g));
+                }
+            }
+            None => return Err(format!("{} with s = {} should be {:e}, got an error", rule, s, want)),
+        }
+    }
+    // comparison routes: equal to its own double, different from the neighbouring doubles
+    let me = crate::gen::f(want);
+    let below = crate::gen::f(f64::from_bits(want.to_bits() - 1));
+    let above = crate::gen::f(f64::from_bits(want.to_bits() + 1));
+    let d2 = json!({"s": s, "me": me, "below": below, "above": above});
+    for (rule, expect) in [
+        (json!({"==": [vs.clone(), {"var": "me"}]}), true),
+        (json!({"==": [{"var": "below"}, vs.clone()]}), false),
+        (json!({"==": [vs.clone(), {"var": "above"}]}), false),
+        (json!({"<=": [{"var": "me"}, vs.clone()]}), true),
+        (json!({">=": [{"var": "me"}, vs.clone()]}), true),
+        (json!({"<": [{"var": "below"}, vs.clone(), {"var": "above"}]}), true),
+    ] {
+        let got = run(&rule, &d2, obs)?;
+        if got != Some(json!(expect)) {
+            return Err(format!("{} with s = {} (value {:e}) should be {}, got {:?}", rule, s, want, expect, got.map(|v| v.to_string())));
+        }
+    }
+    Ok(())
+}
+
+fn gen_radix_rounding() -> BoxedStrategy<Value> {
+    gen::radix_rounding_case()
+        .prop_map(|(s, v)| {
+            let class = format!("{} literal, {} significant bits", &s[..2].to_ascii_lowercase(), if s.len() > 40 { ">64 (long)" } else { ">64" });
+            json!({"s": s, "bits": format!("{:016x}", v.to_bits()), "class": class})
+        })
+        .boxed()
+}
+
 fn fixed_tonumber() -> Vec<Value> {
     std::fs::read_to_string(corpus::root().join("corpus/js_tonumber.jsonl")).unwrap_or_default().lines().filter_map(|l| serde_json::from_str::<Value>(l).ok()).collect()
 }
@@ -371,6 +424,18 @@ pub fn property() -> Property {
                 check: check_tuple,
                 quick: 0,
                 thorough: 0,
+                small_stack: false,
+            },
+            Sub {
+                name: "radix_rounding",
+                about: "hexadecimal, octal and binary literals built to sit on a rounding boundary of the double format - a 53-bit significand, a round bit and 11-80 tail bits (all zero, all one, a single one first / last / at position 10, mixed), so more than 64 significant bits - whose correctly rounded value (nearest, ties to even) is known by construction, independent of model and implementation: through {-:[s,0]}, /, max, min, double negation, literal and via var, and ==, <=, >=, between against the value and its neighbouring doubles.",
+                nontrivial: "every case.",
+                strategy: Some(gen_radix_rounding),
+                fixed: None,
+                fixed_exhaustive: false,
+                check: check_radix_rounding,
+                quick: 20_000,
+                thorough: 1_000_000,
                 small_stack: false,
             },
             Sub {
